@@ -7,6 +7,10 @@ package saml2
 
 import (
 	"bytes"
+	"crypto"
+	"encoding/base64"
+	"reflect"
+	"unsafe"
 	"crypto/rand"
 	"crypto/sha256"
 	"encoding/binary"
@@ -356,3 +360,29 @@ func vRandInstall() {
 func vRandPos() int        { return vxRand.pos }
 func vRandByte(i int) byte { return vxRand.byteAt(i) }
 func vHex(b byte) string   { return fmt.Sprintf("%02x", b) }
+
+// ---- keys ----
+
+func vBytes(name string) []byte {
+	v, _ := vxGet(vxFresh(name))
+	s, _ := v.(string)
+	if s == "" {
+		return nil
+	}
+	return []byte(s)
+}
+func vB64(b []byte) string { return base64.StdEncoding.EncodeToString(b) }
+func vStr(b []byte) string { return string(b) }
+
+func vxPrivateField(ctx *dsig.SigningContext, name string) reflect.Value {
+	f := reflect.ValueOf(ctx).Elem().FieldByName(name)
+	return reflect.NewAt(f.Type(), unsafe.Pointer(f.UnsafeAddr())).Elem()
+}
+func vCtxSigner(ctx *dsig.SigningContext) crypto.Signer {
+	s, _ := vxPrivateField(ctx, "signer").Interface().(crypto.Signer)
+	return s
+}
+func vCtxCerts(ctx *dsig.SigningContext) [][]byte {
+	c, _ := vxPrivateField(ctx, "certs").Interface().([][]byte)
+	return c
+}
